@@ -64,7 +64,15 @@ def generate(rng, tier="quick"):
         "reruns": [],
         "share_config": rng.chance(0.3),
     }
+    ghosts = sorted({e["sid"] for c in cfg["contexts"] for e in c["entries"] if e["role"] == "F5" and "." not in e["sid"] and not e["sid"].startswith("obs")})
+    growable = [f for f in fes if f in ("pandas", "numpy", "netcdf_obj", "xarray_obj")]
+    if ghosts and growable and not tbl.get("no_time") and not tbl.get("side") and rng.chance(0.3):
+        # the stream that was absent in the first run exists in the second one
+        scn["grow"] = {"sid": rng.pick(ghosts), "values": wl.gen_values(rng, len(tbl["times"])), "on": rng.subset(growable, 0.7, at_least=1)}
+        scn["reruns"] = list(scn["grow"]["on"])
     for i, fe in enumerate(fes):
+        if scn.get("grow") and fe in scn["grow"]["on"]:
+            continue
         if fe != "qcconfig" and rng.chance(0.2):
             scn["abandon"].append({"task": fe, "after_yields": rng.randint(1, 3), "restart": True})
         elif fe != "qcconfig" and rng.chance(0.15):
@@ -290,9 +298,34 @@ def execute(scn):
     for e in exp:
         e["window"] = cfg["contexts"][e["ctx"]].get("window")
         e["fails"] = e["entry"]["role"] not in ("healthy", "F6d")
+    grow = scn.get("grow")
+    exp_g, tbl_g = None, None
+    if grow:
+        import copy as _copy
+
+        tbl_g = _copy.deepcopy(tbl)
+        tbl_g["cols"][grow["sid"]] = list(grow["values"])
+        exp_g = pl.expected_calls(cfg, pl.stream_id_universe(tbl_g))
+        for e in exp_g:
+            e["window"] = cfg["contexts"][e["ctx"]].get("window")
+            # entries on the stream that has appeared are ordinary entries now
+            e["fails"] = e["entry"]["role"] not in ("healthy", "F6d") and not (e["entry"]["role"] == "F5" and e["entry"]["sid"] == grow["sid"])
+        bump("probes", "source_grows_between_runs")
     # reference executions first, each in its own pristine process: every entry that may run, alone
     _NEW_ENTRIES.clear()
     solos = {}
+    solos_g = {}
+    for fe in (grow["on"] if grow else []):
+        if fe not in scn["frontends"]:
+            continue
+        for ei, e in enumerate(exp_g):
+            if e["fails"]:
+                continue
+            out = run_solo(fe, tbl_g, solo_config(cfg, e["ctx"], e["entry"]), scn["env"].get("dirty"), False)
+            if "child_error" in out:
+                return {"harness_error": f"solo child: {out['child_error']} {out.get('trace', '')}", "violations": [], "stats": stats}
+            solos_g[(fe, ei)] = out
+            stats["solo_runs"] += 1
     for fe in scn["frontends"]:
         for ei, e in enumerate(exp):
             if e["fails"]:
@@ -342,12 +375,16 @@ def execute(scn):
         ys = rp.final_yields(t)
         if ys is None:
             continue  # abandoned for good: nothing promised
+        grown = getattr(r, "grown", False)
+        exp_r, solos_r = (exp_g, solos_g) if grown else (exp, solos)
         # liveness: one step per expected call + the final StopIteration
-        if fe != "qcconfig" and t.steps > len(exp) + 1:
-            V.append(violation(PROP, "a", fe, "step-bound", f"{t.steps} steps for {len(exp)} calls"))
+        if fe != "qcconfig" and t.steps > len(exp_r) + 1:
+            V.append(violation(PROP, "a", fe, "step-bound", f"{t.steps} steps for {len(exp_r)} calls"))
         # earlier incarnations must be prefixes of the final one (restart / rerun)
         final_desc = [rp.describe_item(i) for i, _ in ys]
         for kind, part in t.history[:-1]:
+            if grown:
+                break  # the earlier run was over the smaller source
             pd_ = [rp.describe_item(i) for i, _ in part]
             if pd_ != final_desc[: len(pd_)]:
                 V.append(violation(PROP, "c", fe, "restart-differs", f"{kind} incarnation differs from final run"))
@@ -357,19 +394,19 @@ def execute(scn):
             check_qcconfig(scn, r, ys, exp, solos, V, stats, bump)
             end_state[r.name] = final_desc
             continue
-        pairs, lonely, free = rp.match_yields(ys, exp, arrays, times)
+        pairs, lonely, free = rp.match_yields(ys, exp_r, arrays, times)
         for yi in lonely:
             item = ys[yi][0]
             V.append(violation(PROP, "b", fe, "unexpected-yield", f"yield for {item.stream_id} matches no runnable entry"))
         for ei in free:
-            e = exp[ei]["entry"]
+            e = exp_r[ei]["entry"]
             V.append(
-                violation(PROP, "c", fe, "missing-yield", f"no yield for ctx{exp[ei]['ctx']} {e['sid']}/{e['module']}.{e['test']} role={e['role']}"),
+                violation(PROP, "c", fe, "missing-yield", f"no yield for ctx{exp_r[ei]['ctx']} {e['sid']}/{e['module']}.{e['test']} role={e['role']}"),
             )
         solo_keys = {}
         for yi, ei in pairs:
             item = ys[yi][0]
-            ex = exp[ei]
+            ex = exp_r[ei]
             ent = ex["entry"]
             label = f"ctx{ex['ctx']} {ent['sid']}/{ent['module']}.{ent['test']}"
             res = rp.results_of(item)
@@ -379,7 +416,7 @@ def execute(scn):
                 if ent["role"] == "F6":
                     bump("probes", "F6_fired")
                 continue
-            solo = solos.get((fe, ei))
+            solo = solos_r.get((fe, ei))
             if solo is None or "crash" in solo:
                 # alone it cannot even run: nothing to compare against (other properties own this)
                 bump("probes", "solo_crashed")
